@@ -207,6 +207,47 @@ def run(ctx, out):
             if base[2]:
                 out.nontrivial.add(("u", i, kind))
         out.sample({"part": 1, "options": kw, "results": len(base[2]) if base[0] == "ok" else base[1]})
+    # ── (B1') union under SHACL rules: the premises of a rule may sit in any graph of the Dataset ─────────────────────
+    for i in range(8 if quick else 60):
+        sg = Graph()
+        S = EX["RU%d" % i]
+        sg.add((S, RDF.type, SH.NodeShape)); sg.add((S, SH.targetClass, CLASSES[0]))
+        r = BNode(); sg.add((S, SH.rule, r))
+        if i % 2 == 0:
+            sg.add((r, RDF.type, SH.TripleRule)); sg.add((r, SH.subject, SH.this)); sg.add((r, SH.predicate, EX.derived))
+            o = BNode(); sg.add((r, SH.object, o)); sg.add((o, SH.path, PREDS[0]))
+        else:
+            decl = BNode()
+            sg.add((EX.decl, SH.declare, decl)); sg.add((decl, SH.prefix, Literal("ex"))); sg.add((decl, SH.namespace, Literal(str(EX), datatype=rdflib.XSD.anyURI)))
+            sg.add((r, RDF.type, SH.SPARQLRule)); sg.add((r, SH.prefixes, EX.decl))
+            sg.add((r, SH.construct, Literal("CONSTRUCT { $this ex:derived ?v } WHERE { $this <%s> ?v }" % PREDS[0])))
+        ps = BNode(); sg.add((S, SH.property, ps)); sg.add((ps, SH.path, EX.derived)); sg.add((ps, SH.minCount, Literal(1)))
+        if i % 3 == 0:
+            sg.add((ps, SH["class"], CLASSES[1]))
+        data = [(NODES[0], RDF.type, CLASSES[0]), (NODES[0], PREDS[0], NODES[1]), (NODES[2], RDF.type, CLASSES[0]),
+                (NODES[3], RDF.type, CLASSES[0]), (NODES[3], PREDS[0], Literal(i))]
+        if i % 4 == 1:
+            data.append((NODES[1], RDF.type, CLASSES[1]))
+        kw = {"advanced": True}
+        if i % 4 >= 2:
+            kw["inplace"] = True
+        if i % 5 == 4:
+            kw["iterate_rules"] = True
+        base = vcase.run_code(sg, partition(rng, data, "graph"), dict(kw))
+        for kind in ("dataset", "dataset", "conjunctive"):
+            out.evaluations += 1
+            part = partition(rng, data, kind)
+            code = vcase.run_code(sg, part, dict(kw))
+            case = vcase.describe(sg, graph_from_triples(data), dict(kw, container=kind), trig=part.serialize(format="trig"))
+            if base[0] != code[0] or (base[0] == "err" and base[1] != code[1]):
+                out.b_fail.append({"signature": "C14:union-rules:outcome-differs:%s" % kind, "case": case, "graph": base[:2], "multigraph": code[:2]})
+            elif base[0] == "ok" and (results_key(base, sg) != results_key(code, sg) or base[1] != code[1]):
+                out.b_fail.append({"signature": "C14:union-rules:results-differ:%s" % kind, "case": case,
+                                   "only_graph": list((results_key(base, sg) - results_key(code, sg)).elements())[:3],
+                                   "only_multigraph": list((results_key(code, sg) - results_key(base, sg)).elements())[:3]})
+            if base[0] == "ok" and base[2]:
+                out.nontrivial.add(("ur", i, kind))
+        out.count("union_rules:%s" % (base[1] if base[0] == "err" else "report"))
     # ── (B2) mix-in + pre-inference = pre-expanded ──────────────────────────────────────────────
     reuse_ont = None
     for i in range(50 if quick else 800):
